@@ -801,13 +801,20 @@ func wirJ(text []byte) (string, error) {
 
 // ---------------------------------------------------------------- TestWireCmd
 
-var wirShapes = []string{"read", "readSel", "readEl", "reply", "full", "part", "partSel", "delSel", "delEl", "readSelEl", "replyPartial", "delSelPartSel"}
+var wirShapes = []string{"read", "readSel", "readEl", "reply", "full", "part", "partSel", "delSel", "delEl", "readSelEl", "replyPartial", "delSelPartSel",
+	// the remaining ways of calling NotifyOrWriteCmdType in which no argument is ignored
+	"partSelDelEl", "delSelDelEl", "delSelPartSelDelEl"}
 
 func wirUsesSel(sh string) bool {
-	return sh == "readSel" || sh == "partSel" || sh == "delSel" || sh == "readSelEl" || sh == "delSelPartSel"
+	return sh == "readSel" || sh == "partSel" || sh == "delSel" || sh == "readSelEl" || sh == "delSelPartSel" || wirCombined(sh)
 }
-func wirUsesEl(sh string) bool     { return sh == "readEl" || sh == "delEl" || sh == "readSelEl" }
-func wirUsesDelete(sh string) bool { return sh == "delSel" || sh == "delEl" || sh == "delSelPartSel" }
+func wirCombined(sh string) bool {
+	return sh == "partSelDelEl" || sh == "delSelDelEl" || sh == "delSelPartSelDelEl"
+}
+func wirUsesEl(sh string) bool { return sh == "readEl" || sh == "delEl" || sh == "readSelEl" || wirCombined(sh) }
+func wirUsesDelete(sh string) bool {
+	return sh == "delSel" || sh == "delEl" || sh == "delSelPartSel" || wirCombined(sh)
+}
 
 // values a command is built from, generated per (function, shape) from the op's own seed
 type wirArgs struct {
@@ -831,21 +838,46 @@ func (a wirArgs) absent(pos int, isSel bool) any {
 	return nil
 }
 
-// wirNilPositions: number of selectors/elements argument positions the shape leaves absent
-func wirNilPositions(sh string) int {
+// wirAbsentBits: the selectors/elements argument positions (bit i = position i of the builder's `any`
+// parameters) the shape leaves absent. (Until the deepening round the masks ran over 1..2^n-1 for n absent
+// positions while bit i meant POSITION i, so an absent position behind a present one was never passed
+// as a typed nil; now every non-empty subset of the absent positions is driven.)
+func wirAbsentBits(sh string) int {
 	switch sh {
 	case "read":
-		return 2
-	case "readSel", "readEl":
-		return 1
+		return 0b11
+	case "readSel":
+		return 0b10
+	case "readEl":
+		return 0b01
 	case "full", "part":
-		return 3
-	case "partSel", "delSel", "delEl":
-		return 2
+		return 0b111
+	case "partSel":
+		return 0b101
+	case "delSel":
+		return 0b110
+	case "delEl":
+		return 0b011
 	case "delSelPartSel":
-		return 1
+		return 0b100
+	case "partSelDelEl":
+		return 0b001
+	case "delSelDelEl":
+		return 0b010
 	}
 	return 0
+}
+
+// wirNilMasks: every non-empty subset of the absent positions of the shape
+func wirNilMasks(sh string) []int {
+	bits := wirAbsentBits(sh)
+	var out []int
+	for m := 1; m < 8; m++ {
+		if m&^bits == 0 {
+			out = append(out, m)
+		}
+	}
+	return out
 }
 
 func wirNonZero(t reflect.Type, rng *rand.Rand, avoid any) any {
@@ -912,6 +944,12 @@ func wirBuild(fd api.FunctionDataCmdInterface, sh string, a wirArgs) model.CmdTy
 		return fd.NotifyOrWriteCmdType(a.absent(0, true), a.absent(1, true), false, a.el)
 	case "delSelPartSel":
 		return fd.NotifyOrWriteCmdType(a.sel, a.sel2, false, a.absent(2, false))
+	case "partSelDelEl":
+		return fd.NotifyOrWriteCmdType(a.absent(0, true), a.sel, false, a.el)
+	case "delSelDelEl":
+		return fd.NotifyOrWriteCmdType(a.sel, a.absent(1, true), false, a.el)
+	case "delSelPartSelDelEl":
+		return fd.NotifyOrWriteCmdType(a.sel, a.sel2, false, a.el)
 	}
 	panic("bad shape " + sh)
 }
@@ -1167,7 +1205,7 @@ func wirCmdJudge(r *h.Report, f *wirFn, sh string, cmd model.CmdType, a wirArgs,
 		}
 		r.SpecFail(key, ops, fmt.Sprintf("%s %s: payload %s came back as %s (%s); json %s", f.name, sh, w, g, why, text))
 	}
-	wantPartial := sh == "readSel" || sh == "readEl" || sh == "readSelEl" || sh == "replyPartial" || sh == "part" || sh == "partSel" || sh == "delSelPartSel"
+	wantPartial := sh == "readSel" || sh == "readEl" || sh == "readSelEl" || sh == "replyPartial" || sh == "part" || sh == "partSel" || sh == "delSelPartSel" || sh == "partSelDelEl" || sh == "delSelPartSelDelEl"
 	wantDelete := wirUsesDelete(sh)
 	if pr.present != wantPartial || dr.present != wantDelete {
 		r.SpecFail("C18/filter-kind:"+sh, ops, fmt.Sprintf("%s %s: partial filter %v (want %v), delete filter %v (want %v); json %s", f.name, sh, pr.present, wantPartial, dr.present, wantDelete, text))
@@ -1227,6 +1265,14 @@ func wirCmdJudge(r *h.Report, f *wirFn, sh string, cmd model.CmdType, a wirArgs,
 		chk("delete", dr, nil, a.el)
 	case "delSelPartSel":
 		chk("delete", dr, a.sel, nil)
+		chk("partial", pr, a.sel2, nil)
+	case "partSelDelEl":
+		chk("delete", dr, nil, a.el)
+		chk("partial", pr, a.sel, nil)
+	case "delSelDelEl":
+		chk("delete", dr, a.sel, a.el)
+	case "delSelPartSelDelEl":
+		chk("delete", dr, a.sel, a.el)
 		chk("partial", pr, a.sel2, nil)
 	}
 	return impl, "ok:" + sh
@@ -1381,8 +1427,8 @@ func wirGenSeq(f *wirFn, rng *rand.Rand, n int) []string {
 			ops = append(ops, fmt.Sprintf("call read %d", rng.Int63n(1<<40))) // plain reads often: after anything
 		default:
 			sh := wirShapes[rng.Intn(len(wirShapes))]
-			if np := wirNilPositions(sh); np > 0 && rng.Intn(2) == 0 {
-				ops = append(ops, fmt.Sprintf("call %s %d %d", sh, rng.Int63n(1<<40), 1+rng.Intn(1<<uint(np)-1)))
+			if ms := wirNilMasks(sh); len(ms) > 0 && rng.Intn(2) == 0 {
+				ops = append(ops, fmt.Sprintf("call %s %d %d", sh, rng.Int63n(1<<40), ms[rng.Intn(len(ms))]))
 			} else {
 				ops = append(ops, fmt.Sprintf("call %s %d", sh, rng.Int63n(1<<40)))
 			}
@@ -1475,7 +1521,7 @@ func wirConc(r *h.Report, fns map[string]*wirFn, op string) {
 }
 
 func TestWireCmd(t *testing.T) {
-	r := h.NewReport("wirecmd", "every function the factory registers for any feature type x 12 command shapes (the nine of the property, read+selector+elements, partial reply, delete+partial selectors), built with the real ReadCmdType/ReplyCmdType/NotifyOrWriteCmdType from reflectively generated data, selectors and elements, json.Marshal, json.Unmarshal, recognised with the real CmdType.Data/ExtractFilter/FilterType.Data; exhaustive over functions x shapes, several value seeds each, and over every way of passing the ABSENT selectors/elements arguments (untyped nil, or a nil pointer of the function's selectors/elements type, per argument position - both mean none; the command must equal the one built with untyped nils); util.IsNil on every form of nil; compared with the prediction of the Lean table model Spine.Cmd; BUILDER PURITY: per function one long-lived function-data instance driven through a seeded history of builder calls over all shapes with data stored and replaced in between (and nothing stored at first) - every command is judged as above (the model is stateless: a build is a function of function, data and arguments), built twice in a row (idempotence) and compared by reflect.DeepEqual with what a fresh instance holding the same data builds (purity), and the command returned by the previous call must be unchanged after the next call (no aliasing of returned commands); plus two goroutines building on one instance at the same time; non-trivial = distinct (function, shape, outcome) and distinct histories")
+	r := h.NewReport("wirecmd", "every function the factory registers for any feature type x 15 command shapes (the nine of the property, read+selector+elements, partial reply, and every combination of delete selector / partial selector / delete elements: together every way of calling the three builders in which no argument is ignored), built with the real ReadCmdType/ReplyCmdType/NotifyOrWriteCmdType from reflectively generated data, selectors and elements, json.Marshal, json.Unmarshal, recognised with the real CmdType.Data/ExtractFilter/FilterType.Data; exhaustive over functions x shapes, several value seeds each, and over every way of passing the ABSENT selectors/elements arguments (untyped nil, or a nil pointer of the function's selectors/elements type, per argument position - both mean none; the command must equal the one built with untyped nils); util.IsNil on every form of nil; compared with the prediction of the Lean table model Spine.Cmd; BUILDER PURITY: per function one long-lived function-data instance driven through a seeded history of builder calls over all shapes with data stored and replaced in between (and nothing stored at first) - every command is judged as above (the model is stateless: a build is a function of function, data and arguments), built twice in a row (idempotence) and compared by reflect.DeepEqual with what a fresh instance holding the same data builds (purity), and the command returned by the previous call must be unchanged after the next call (no aliasing of returned commands); plus two goroutines building on one instance at the same time; non-trivial = distinct (function, shape, outcome) and distinct histories")
 	defer r.Write()
 	completed := wirGuard(r)
 	d := h.StartDriver("drv_cmd")
@@ -1591,7 +1637,7 @@ func TestWireCmd(t *testing.T) {
 			}
 			// every way of passing the absent selectors / elements arguments: untyped nil (above) or a nil
 			// pointer of the function's selectors / elements type, per argument position
-			for mask := 1; mask < 1<<uint(wirNilPositions(sh)); mask++ {
+			for _, mask := range wirNilMasks(sh) {
 				for k := 0; k < h.Scale(1, 4); k++ {
 					run(fmt.Sprintf("cmd %s %s %d %d", f.name, sh, rng.Int63n(1<<40), mask))
 				}
